@@ -99,7 +99,7 @@ CHECKS = {
    "DESIGN.md section 5 C18"),
  "C19": ("P", "fault_enumeration",
    "exhaustive stage/fault enumeration on the real jpgo binary (one process per case), in-process reference from the same tree",
-   "The jpgo binary built from the current tree is run on the FULL product (both tiers) of 66 expressions (valid of every result type incl. false-like and multi-line, lexer/parser syntax errors, evaluation errors, leading dash) x 52 input texts (valid of every type, 32-64 KiB inputs, empty, whitespace, non-JSON white space, BOM, truncated, trailing garbage, two documents, invalid UTF-8) x {-input file, stdin pipe, stdin from a regular file, -input naming a pipe, missing file}; the thorough tier adds every sentence of the mixed fragment up to structural weight 4 (~8k expressions) x 9 valid inputs x 2 channels (1.6e5 process runs): each case is one trace of the six-stage pipeline; stdout/exit status are compared with the in-process library result, and the two channels with each other.",
+   "The jpgo binary built from the current tree is run on the FULL product (both tiers) of 61 expressions (valid of every result type incl. false-like and multi-line, lexer/parser syntax errors, evaluation errors, leading dash) x 47 input texts (valid of every type, 32-64 KiB inputs, empty, whitespace, non-JSON white space, BOM, truncated, trailing garbage, two documents, invalid UTF-8) x {-input file, stdin pipe, stdin from a regular file, -input naming a pipe, missing file}; the thorough tier adds every sentence of the mixed fragment up to structural weight 4 (~8k expressions) x 9 valid inputs x 2 channels (1.6e5 process runs): each case is one trace of the six-stage pipeline; stdout/exit status are compared with the in-process library result, and the two channels with each other.",
    "Validity of the input is decided by encoding/json as jpgo does; object-member order handled through the reference outcome set.",
    "DESIGN.md section 5 C19"),
 }
